@@ -456,6 +456,33 @@ theorem NInv.rename (h : NInv imports R S) {name exName k : Str} {m : β} {vn ve
         rw [he'] at hi
         exact List.mem_cons_of_mem _ (h.from_ n (by simpa using hi))
 
+/-- in the rename case the new (higher) name has never been redirected -/
+theorem NInv.rename_nokey (h : NInv imports R S) {name exName k : Str} {vn vex : Version}
+    (hex : (amGet imports exName).isSome = true)
+    (hkn : altKey name = some (k, vn)) (hke : altKey exName = some (k, vex)) (hlt : vex.lt vn = true) :
+    amGet R name = none := by
+  cases hr : amGet R name with
+  | none => rfl
+  | some b =>
+    obtain ⟨_, hb, k0, va, vb, hka, hkb, hl⟩ := h.red name b hr
+    rw [hkn] at hka; cases hka
+    have : b = exName := h.track b exName k vb vex hb hex hkb hke
+    subst this
+    rw [hke] at hkb; cases hkb
+    exact absurd hl (vlt_asymm hlt)
+
+/-- a seen name that is not imported is redirected to the import of its track -/
+theorem NInv.seen_canon (h : NInv imports R S) {name exName k : Str} {vn vex : Version} (hs : name ∈ S)
+    (hnone : amGet imports name = none) (hex : (amGet imports exName).isSome = true)
+    (hkn : altKey name = some (k, vn)) (hke : altKey exName = some (k, vex)) : canon R name = exName := by
+  rcases h.seen name hs with h1 | h1
+  · rw [hnone] at h1; cases h1
+  · obtain ⟨b, hb⟩ := Option.isSome_iff_exists.1 h1
+    obtain ⟨_, hbi, k0, va, vb, hka, hkb, _⟩ := h.red name b hb
+    rw [hkn] at hka; cases hka
+    unfold canon; rw [hb]
+    exact h.track b exName k vb vex hbi hex hkb hke
+
 theorem canon_rename (R : List (Str × Str)) (name exName n : Str) :
     canon (amInsert (repoint R exName name) exName name) n =
       if exName == n then name else if canon R n == exName then (if (amGet R n).isSome then name else n) else canon R n := by
